@@ -40,21 +40,21 @@ PROPS = {
     "C06": prog("hist", HIST3, q(5, 8000, 120), t(5, 40000, 200, 120), assumptions=COMMON_ASSUME),
     "C07": prog("hist", HIST3, q(5, 8000, 120), t(5, 40000, 200, 120), assumptions=COMMON_ASSUME),
     "C08": dict(kind="prog", parts=[dict(target="hist", configs=HIST3),
-                                   dict(target="comp", configs=["base", "dbg"],
+                                   dict(target="comp", configs=["rel", "base", "dbg"],
                                         quick=dict(shards=5, cases=12000, size=80),
                                         thorough=dict(shards=6, cases=80000, size=80))],
                 quick=q(5, 8000, 100), thorough=t(5, 40000, 160, 120), assumptions=COMMON_ASSUME),
-    "C09": dict(kind="prog", parts=[dict(target="comp", configs=["base", "dbg"])],
+    "C09": dict(kind="prog", parts=[dict(target="comp", configs=["rel", "base", "dbg"])],
                 probes=dict(glob="targets/probes/*.cpp", configs=["base"]),
                 quick=q(8, 16000, 80), thorough=t(8, 100000, 80, 120), assumptions=COMMON_ASSUME),
-    "C10": dict(kind="prog", parts=[dict(target="cont", configs=["base", "dbg"])], extra=nodesizes.sweep,
+    "C10": dict(kind="prog", parts=[dict(target="cont", configs=["rel", "base", "dbg"])], extra=nodesizes.sweep,
                 rule=">= 1 cross-allocator copy/move assignment, swap or allocator-extended copy while both containers "
                      "are non-empty and >= 20 insertions; for the generated-source node-size sweep every (container, "
                      "size, alignment) triple is a case, non-trivial if the size is not a multiple of 8.",
                 quick=q(8, 6000, 80), thorough=t(8, 40000, 80, 120), assumptions=COMMON_ASSUME),
-    "C11": dict(kind="prog", parts=[dict(target="obj", configs=["base", "dbg"])],
+    "C11": dict(kind="prog", parts=[dict(target="obj", configs=["rel", "base", "dbg"])],
                 quick=q(8, 10000, 30), thorough=t(8, 60000, 30, 120), assumptions=COMMON_ASSUME),
-    "C20": dict(kind="prog", parts=[dict(target="obj", configs=["base", "dbg"])],
+    "C20": dict(kind="prog", parts=[dict(target="obj", configs=["rel", "base", "dbg"])],
                 quick=q(8, 8000, 24), thorough=t(8, 40000, 24, 120), assumptions=COMMON_ASSUME),
     "C12": prog("hist", HIST3, q(5, 8000, 100), t(5, 40000, 160, 120), assumptions=COMMON_ASSUME),
     "C13": dict(kind="prog", parts=[dict(target="thr", configs=["base", "dbg"])],
